@@ -252,7 +252,9 @@ inline double flt_table(int vi)
 {
     static double const t[] = {0.0, 0.5, -0.5, 1.5, -1.5, 2.5, -2.5, 0.25, -0.25, 0.75, -0.75, 31.5, -31.5, 100.3, -100.7, 1000000.5, 0.001, -0.001,
                                1048576.5, 255.9375, -255.9375, 65535.5, 1e12, -1e12, 3.999, 0.49999999999999994, 8388609.0, -0.03125, 0.046875,
-                               127.5, -128.5, 4294967295.5, 1e-9, -7.0, 12345.678};
+                               127.5, -128.5, 4294967295.5, 1e-9, -7.0, 12345.678,
+                               // odd integers that need all 53 bits (x + 0.5 is not a double), exactly representable large values
+                               4503599627370497.0, -4503599627370497.0, 9007199254740991.0, 6755399441055745.0, 2097152.25, 16777217.0};
     return t[static_cast<std::size_t>(vi) % (sizeof(t) / sizeof(t[0]))];
 }
 template<int K>
